@@ -21,6 +21,20 @@ func expectedMapping(where string, n *yaml.Node) error {
 	)
 }
 
+// metadataBool is a boolean value in a reusable workflow file. The value can be written with an
+// expression like ${{ true }}. In this case the value is not known statically so it is false. This
+// must be consistent with Bool.Value set by the workflow parser.
+type metadataBool bool
+
+// UnmarshalYAML implements yaml.Unmarshaler.
+func (b *metadataBool) UnmarshalYAML(n *yaml.Node) error {
+	if n.Kind == yaml.ScalarNode && n.Tag == "!!str" && isExprAssigned(n.Value) {
+		*b = false
+		return nil
+	}
+	return n.Decode((*bool)(b))
+}
+
 // ReusableWorkflowMetadataInput is an input metadata for validating local reusable workflow file.
 type ReusableWorkflowMetadataInput struct {
 	// Name is a name of the input defined in the reusable workflow.
@@ -34,9 +48,9 @@ type ReusableWorkflowMetadataInput struct {
 // UnmarshalYAML implements yaml.Unmarshaler.
 func (input *ReusableWorkflowMetadataInput) UnmarshalYAML(n *yaml.Node) error {
 	type metadata struct {
-		Required bool      `yaml:"required"`
-		Default  yaml.Node `yaml:"default"`
-		Type     string    `yaml:"type"`
+		Required metadataBool `yaml:"required"`
+		Default  yaml.Node    `yaml:"default"`
+		Type     string       `yaml:"type"`
 	}
 
 	var md metadata
@@ -47,7 +61,7 @@ func (input *ReusableWorkflowMetadataInput) UnmarshalYAML(n *yaml.Node) error {
 	// An input has a default value when the "default" key exists, whatever its value is. This must be
 	// consistent with the metadata built from a workflow AST in WriteWorkflowCallEvent. Otherwise
 	// errors at workflow calls depend on which of them registered the metadata first.
-	input.Required = md.Required && md.Default.IsZero()
+	input.Required = bool(md.Required) && md.Default.IsZero()
 	switch md.Type {
 	case "boolean":
 		input.Type = BoolType{}
@@ -121,13 +135,17 @@ func (secrets *ReusableWorkflowMetadataSecrets) UnmarshalYAML(n *yaml.Node) erro
 			continue // Keys are case insensitive. The first definition is used like the workflow parser does
 		}
 
-		var s ReusableWorkflowMetadataSecret
+		var s struct {
+			Required metadataBool `yaml:"required"`
+		}
 		if err := v.Decode(&s); err != nil {
 			return err
 		}
-		s.Name = k.Value
 
-		md[strings.ToLower(k.Value)] = &s
+		md[strings.ToLower(k.Value)] = &ReusableWorkflowMetadataSecret{
+			Name:     k.Value,
+			Required: bool(s.Required),
+		}
 	}
 
 	*secrets = md
